@@ -27,7 +27,7 @@ ANCHORS = [
     ("tangelo/linq/target/target_cirq.py", "simulate_circuit", "cirq plain simulation path / initial_state plumbing"),
     ("tangelo/linq/target/target_sympy.py", "simulate_circuit", "sympy bitstring reversal and statevector extraction"),
 ]
-REQUIRED = {"cirq_statevector": 50, "cirq_frequencies": 50, "cirq_translated_unitary": 30, "cirq_sampled": 10,
+REQUIRED = {"live_observations_total": 100, "cirq_statevector": 50, "cirq_frequencies": 50, "cirq_translated_unitary": 30, "cirq_sampled": 10,
             "sympy_statevector": 10, "sympy_frequencies": 10, "single_gate_placement": 50}
 BUDGET = {"quick": 200, "thorough": 2400}
 TOL = 1e-9
@@ -56,6 +56,7 @@ def cases(tier, seed):
             if name in SYMPY_NAMES and (tier == "thorough" or nc <= 2):
                 out.append({"sub": "placement", "name": name, "nc": nc, "backend": "sympy"})
     out.append({"sub": "edge"})
+    out.append({"sub": "repo_tests", "tier": tier})
     return out
 
 
@@ -342,8 +343,18 @@ def classify_exception(case, e, info):
     return None
 
 
+def run_repo_tests(case, ctx):
+    """The repository's own tests as an additional workload: every observed call is compared with the reference model (vlib.livemon)."""
+    from vlib.harness import repo_tests_case
+    repo_tests_case(case, ctx, ['tangelo/linq/tests/test_simulator.py'],
+                    ['tangelo/linq/tests', 'tangelo/toolboxes/circuits/tests', 'tangelo/toolboxes/ansatz_generator/tests', 'tangelo/toolboxes/measurements/tests'],
+                    only=('simulate_', 'translate_cirq_unitary'), semantic=('C01', 'C17'))
+
+
 def run_case(case, ctx):
     sub = case["sub"]
+    if sub == "repo_tests":
+        return run_repo_tests(case, ctx)
     if sub == "cirq":
         run_cirq(case, ctx)
     elif sub == "sympy":
